@@ -495,6 +495,9 @@ func (w *world) opRead(id *pbresource.ID) {
 		if cur == nil || !proto.Equal(cur, mm.Stored) {
 			w.violate("read:not-last-committed", "Read (group version mismatch) carries something else than the last committed version")
 		}
+		if id.Uid != "" && mm.Stored.Id.Uid != id.Uid {
+			w.violate("uid:stale-read-served", "a uid-qualified read naming another GroupVersion was handed (inside GroupVersionMismatchError) a resource with another uid: the holder of a deleted lifetime's id sees the re-created resource")
+		}
 	case errors.Is(err, storage.ErrNotFound):
 		out = "notfound"
 		if cur != nil && (id.Uid == "" || id.Uid == cur.Id.Uid) {
@@ -1091,7 +1094,20 @@ func (g *gen) step() {
 		}
 		w.opDelete(id, g.version(cur, resKey(id)))
 	case n < 53:
-		id, _ := g.target()
+		id, cur := g.target()
+		if cur != nil && g.r.Chance(25) {
+			// the holder of another (earlier) lifetime's id, speaking the other GroupVersion of the type
+			id = clone(cur.Id)
+			id.Uid = hx.Pick(g.r, uidPool)
+			if id.Type.GroupVersion == "v1" {
+				id.Type.GroupVersion = "v2"
+			} else {
+				id.Type.GroupVersion = "v1"
+			}
+			if id.Uid != cur.Id.Uid {
+				w.tag("read:stale-uid-other-groupversion")
+			}
+		}
 		w.opRead(id)
 	case n < 60:
 		w.opList(g.query())
